@@ -10,6 +10,11 @@ CHECKS = {
         technique="TLA+ refinement (impl-shaped -> abstract) model-checked by TLC; transition-cover replay into the real objects; TLC trace validation of recorded call logs",
         text="TLC exhaustively checks that the implementation-shaped models of Worklist (tombstoned stack + index map) and IntDisjointSet (parent forest, path compression, union by size) refine the abstract LIFO-set / partition models including every return value, and checks the ScopedDict model's lookup consistency; every edge of those state graphs is replayed on the real objects and every return value compared with the model; long seeded histories over 12 keys are validated by the trace specs.",
         note="Trusted: the abstract TLA+ models state the property; TLC; the adapters that map calls and return values (harness/drivers/c12.py). Bounds: 3 items / 4+1 elements / 3 scopes x 2 keys x 3 values, depth 5-9; random histories beyond."),
+    "C24": dict(
+        category="model_checking", design_ref="DESIGN.md §3.5, §4 C24",
+        technique="TLA+ graph definitions (reachability, dominance as 'unreachable once a is removed', checked against simple-path enumeration) + both algorithms as TLC state machines from every small graph; real DominanceInfo/PostOrderIterator results on all graphs judged by TLC",
+        text="TLC starts the transcribed dominator fixpoint and post-order iterator from every graph with 3 (thorough: 4) blocks and out-degree <=2 and checks them against the declarative definitions; the real code is run on every graph with <=3 blocks (thorough: <=4, 194k graphs) plus seeded random graphs up to 9 blocks, and TLC judges each recorded dominance relation and iteration order against CFG.tla.",
+        note="Trusted: CFG.tla's definitions (cross-checked by TLC against literal simple-path enumeration), the region builder (test.termop terminators). Graphs beyond 4 blocks are sampled, not enumerated."),
 }
 
 NOT_APPLICABLE = {
